@@ -71,6 +71,10 @@ def counter_verify(chk, F, rule, cfg):
     inline = lambda f, d, n: f.kind in ('fn', 'assoc') and len(f.blocks) < 20  # noqa: E731
     paths = symex.Interp(F, inline=inline).run(fn)
     chk.analysed(fn)
+    # which parameter is what, by type (not by position): the error sink is the `&mut Vec<..MockError..>`, the method's identity is the
+    # `&MockFnInfo` (or the Trait::method path taken out of it)
+    ERRS = next((i for i in range(1, fn.arg_count + 1) if re.search(r'^&mut .*Vec<.*MockError', fn.locals[i]['ty'])), 4)
+    WHO = next((i for i in range(1, fn.arg_count + 1) if re.search(r'MockFnInfo|TraitMethodPath', fn.locals[i]['ty'])), 2)
     variants = [v['name'] for v in F.adt('counter::Exactness')['variants']]
     chk.ob(rule, 'Exactness has the three documented variants', set(variants) == {'Exact', 'AtLeast', 'AtLeastPlusOne'}, config=cfg, site='exactness', unrecognised=True,
            what='Exactness variants %s' % variants, found=variants)
@@ -99,7 +103,7 @@ def counter_verify(chk, F, rule, cfg):
                         feasible = False
                         break
                 if feasible:
-                    pushes = [e for e in p.calls(r'Vec::push$') if strip(e.data[2][0])[0] == 'ref' and strip(e.data[2][0])[1][0] == ('ptr', ('param', 0, 4))]
+                    pushes = [e for e in p.calls(r'Vec::push$') if strip(e.data[2][0])[0] == 'ref' and strip(e.data[2][0])[1][0] == ('ptr', ('param', 0, ERRS))]
                     outs.append((len(pushes), p, pushes))
             if unrec:
                 chk.ob(rule, 'every branch of CallCounter::verify is on exactness or a comparison of actual with minimum', False, config=cfg, fn=fn, site='branch', unrecognised=True,
@@ -115,7 +119,8 @@ def counter_verify(chk, F, rule, cfg):
                 for e in pushes:
                     msg = e.data[2][1]
                     okv = strip(msg)[0] == 'agg' and strip(msg)[3] == 'FailedVerification'
-                    has_path = mentions(msg, lambda x: x[0] == 'ref' and x[1][0] == ('ptr', ('param', 0, 2)) and x[1][1][-1:] == (('f', 'path'),))
+                    has_path = mentions(msg, lambda x: x[0] == 'ref' and x[1][0] == ('ptr', ('param', 0, WHO)) and x[1][1][-1:] == (('f', 'path'),)) or \
+                        mentions(msg, lambda x: x == ('param', 0, WHO) or (x[0] == 'ref' and x[1] == (('local', 0, WHO), ())))      # (handed the path itself instead of the info that contains it)
                     has_pat = mentions(msg, lambda x: is_call(x, r'core::ops::(Fn::call|FnMut::call_mut|FnOnce::call_once)$'))
                     has_actual = mentions(msg, is_actual)
                     has_bound = mentions(msg, lambda x: is_minimum(x))
@@ -173,8 +178,10 @@ def fnmocker_verify_pipeline(chk, F, rule, cfg, fn, paths):
         chk.ob(rule, 'MockNeverCalled is pushed iff no pattern of the method was ever matched', dec is not None and len(pushes) == (1 if dec else 0), config=cfg, fn=fn, site='never-called',
                what='never-called: total==0 is %s but %d pushes' % (dec, len(pushes)), found={'total_is_zero': dec, 'pushes': len(pushes)})
         for e in pushes:
-            info = dict(strip(e.data[2][1])[4]).get('info', ('unk', ''))
-            chk.ob(rule, 'MockNeverCalled names this method', field_path(info) == (('param', 0, 1), ['info']), config=cfg, fn=fn, site='never-called.info', what='info %s' % show(info), found=show(info))
+            pay_ = dict(strip(e.data[2][1])[4])
+            info = pay_.get('info', pay_.get('path', ('unk', '')))
+            # (the error carries this method's info, or just the part of it that messages print: its Trait::method path)
+            chk.ob(rule, 'MockNeverCalled names this method', field_path(info) in ((('param', 0, 1), ['info']), (('param', 0, 1), ['info', 'path'])), config=cfg, fn=fn, site='never-called.info', what='info %s' % show(info), found=show(info))
     chk.ob(rule, 'FnMocker::verify iterates its patterns', ok_any, config=cfg, fn=fn, site='loop', unrecognised=True, what='no iteration found')
     callers = [(f.root if f.kind == 'closure' else f.defp, bb) for f, bb, t in F.callers_of('counter::CallCounter::verify')]
     chk.ob(rule, 'CallCounter::verify is only called by FnMocker::verify', len(callers) == 1 and callers[0][0] == 'fn_mocker::FnMocker::verify', config=cfg, site='callers', what='callers %s' % callers, found=callers)
@@ -224,7 +231,7 @@ def fnmocker_verify(chk, F, rule, cfg):
             seen_iter = True
             recv = strip(e.data[2][0])
             ok_recv = field_path(recv)[1][-1:] == ['call_counter'] and mentions(recv, lambda x: L.is_iter_next(('discr', x)) if x[0] == 'call' else False)
-            errs = strip(e.data[2][3])
+            errs = next((strip(a_) for a_ in e.data[2][1:] if strip(a_)[0] == 'ref' and strip(a_)[2] and strip(a_)[1][0] == ('ptr', ('param', 0, 2))), ('unk', ''))     # (the caller's error vector, wherever it stands in the argument list)
             ok_err = errs[0] == 'ref' and errs[1][0] == ('ptr', ('param', 0, 2))
             src = None
             for x in symex.subvalues(recv):
@@ -265,8 +272,10 @@ def fnmocker_verify(chk, F, rule, cfg):
                 chk.ob(rule, 'MockNeverCalled is pushed iff no pattern of the method was ever matched', len(pushes) == (1 if is_zero else 0), config=cfg, fn=fn, site='never-called',
                        what='never-called: total==0 is %s but %d pushes' % (is_zero, len(pushes)), found={'total_is_zero': is_zero, 'pushes': len(pushes)})
         for e in pushes:
-            info = dict(strip(e.data[2][1])[4]).get('info', ('unk', ''))
-            chk.ob(rule, 'MockNeverCalled names this method', field_path(info) == (('param', 0, 1), ['info']), config=cfg, fn=fn, site='never-called.info', what='info %s' % show(info), found=show(info))
+            pay_ = dict(strip(e.data[2][1])[4])
+            info = pay_.get('info', pay_.get('path', ('unk', '')))
+            # (the error carries this method's info, or just the part of it that messages print: its Trait::method path)
+            chk.ob(rule, 'MockNeverCalled names this method', field_path(info) in ((('param', 0, 1), ['info']), (('param', 0, 1), ['info', 'path'])), config=cfg, fn=fn, site='never-called.info', what='info %s' % show(info), found=show(info))
     chk.ob(rule, 'FnMocker::verify iterates its patterns', seen_iter, config=cfg, fn=fn, site='loop', unrecognised=True, what='no iteration found')
     callers = [((f.root if f.kind in ('closure', 'promoted') else f.defp), bb) for f, bb, t in F.callers_of('counter::CallCounter::verify')]      # (a call inside a closure literal belongs to the function the closure is written in)
     chk.ob(rule, 'CallCounter::verify is only called by FnMocker::verify', len(callers) == 1 and callers[0][0] == 'fn_mocker::FnMocker::verify', config=cfg, site='callers', what='callers %s' % callers, found=callers)
